@@ -31,6 +31,10 @@ TRUSTED_BASE = [
     "A4 str.strip idempotent; string order embeds into the reals",
     "A7 REAL mode: float arithmetic is treated as exact real arithmetic unless an obligation is tagged RND/FP64",
     "A8 z3 4.x/5.1 is correct; spec functions in /verif/spec are the reference semantics (written from the property text)",
+    "A9 modular use of a callee's spec at a call site: the callee's explicit `requires` and the enumerated configuration "
+    "are proved at the call site (otherwise the real body is executed), but the well-formedness of the receiver that "
+    "the callee's input builder assumes is not re-proved there (receivers are the caller's own well-formed inputs or "
+    "constructor results)",
 ]
 
 
